@@ -1,17 +1,2058 @@
-//! Engine `json` — placeholder (not written yet).
+//! Engine `json` (C15) — `ProcessState` values are constructed directly from a *recipe* (the case
+//! line), `print_json` is run on them, and
+//!   * the compact bytes are compared with the Lean model `printJson` applied to the abstraction
+//!     `alpha(&ProcessState)` (what `print_json` reads: public fields + unmodelled leaf renderers),
+//!   * the real bytes go through the Lean parser and `Conforms` (schema predicate), the pretty
+//!     output must parse (in Lean) to the same value,
+//!   * the property's oracle is evaluated on the implementation's output alone (serde_json).
+//!
+//! case:   `json <recipe token tree>`
+//! model:  `json <alpha token tree> [ck <hex compact> <hex pretty>]`
 use crate::common::*;
+use minidump::system_info::{Cpu, Os};
+use minidump::*;
+use minidump_common::format as md;
+use minidump_processor::{
+    Address, AdjustedAddress, BitFlipDetails, CrashInconsistency, ExceptionInfo, Limit,
+    LinuxProcLimit, LinuxProcLimits, LinuxStandardBase, PossibleBitFlip, ProcessState,
+};
+use minidump_unwind::{
+    CallStack, CallStackInfo, FrameTrust, InlineFrame, StackFrame, SymbolStats, SystemInfo,
+};
+use scroll::Pread;
+use serde_json::Value;
+use std::collections::{BTreeMap, BTreeSet, HashMap, HashSet};
 
 pub struct Json;
+
+// ------------------------------------------------------------------------------------ token trees
+
+#[derive(Clone, Debug, PartialEq)]
+pub enum Sx {
+    A(String),
+    L(Vec<Sx>),
+}
+use Sx::{A, L};
+
+impl Sx {
+    fn write(&self, out: &mut String) {
+        match self {
+            A(a) => out.push_str(a),
+            L(xs) => {
+                out.push('(');
+                for x in xs {
+                    out.push(' ');
+                    x.write(out);
+                }
+                out.push_str(" )");
+            }
+        }
+    }
+    fn parse_seq(toks: &[&str], pos: &mut usize, top: bool) -> Option<Vec<Sx>> {
+        let mut v = Vec::new();
+        while *pos < toks.len() {
+            let t = toks[*pos];
+            *pos += 1;
+            if t == "(" {
+                v.push(L(Sx::parse_seq(toks, pos, false)?));
+            } else if t == ")" {
+                return if top { None } else { Some(v) };
+            } else {
+                v.push(A(t.to_string()));
+            }
+        }
+        if top {
+            Some(v)
+        } else {
+            None
+        }
+    }
+    fn as_list(&self) -> Option<&[Sx]> {
+        match self {
+            L(v) => Some(v),
+            _ => None,
+        }
+    }
+    fn atom(&self) -> Option<&str> {
+        match self {
+            A(a) => Some(a),
+            _ => None,
+        }
+    }
+    fn is_none(&self) -> bool {
+        matches!(self, A(a) if a == "-")
+    }
+    fn nat(&self) -> Option<u64> {
+        self.atom()?.strip_prefix('n')?.parse().ok()
+    }
+    fn string(&self) -> Option<String> {
+        let h = self.atom()?.strip_prefix('s')?;
+        if h.is_empty() {
+            return Some(String::new());
+        }
+        String::from_utf8(unhex(h)?).ok()
+    }
+    /// raw bytes (`b<hex>`), may be invalid UTF-8
+    fn bytes(&self) -> Option<Vec<u8>> {
+        let h = self.atom()?.strip_prefix('b')?;
+        if h.is_empty() {
+            return Some(vec![]);
+        }
+        unhex(h)
+    }
+    fn boolean(&self) -> Option<bool> {
+        match self.atom()? {
+            "t" => Some(true),
+            "f" => Some(false),
+            _ => None,
+        }
+    }
+    fn opt<T>(&self, f: impl Fn(&Sx) -> Option<T>) -> Option<Option<T>> {
+        if self.is_none() {
+            Some(None)
+        } else {
+            f(self).map(Some)
+        }
+    }
+    fn list<T>(&self, f: impl Fn(&Sx) -> Option<T>) -> Option<Vec<T>> {
+        self.as_list()?.iter().map(f).collect()
+    }
+}
+
+fn sx_line(items: &[Sx]) -> String {
+    let mut s = String::new();
+    for (i, x) in items.iter().enumerate() {
+        if i > 0 {
+            s.push(' ');
+        }
+        x.write(&mut s);
+    }
+    s
+}
+fn sx_parse(line: &str) -> Option<Vec<Sx>> {
+    let toks: Vec<&str> = line.split(' ').filter(|t| !t.is_empty()).collect();
+    let mut pos = 0;
+    Sx::parse_seq(&toks, &mut pos, true)
+}
+
+fn n(v: u64) -> Sx {
+    A(format!("n{v}"))
+}
+fn s(v: &str) -> Sx {
+    A(format!("s{}", if v.is_empty() { String::new() } else { hex(v.as_bytes()) }))
+}
+fn bts(v: &[u8]) -> Sx {
+    A(format!("b{}", if v.is_empty() { String::new() } else { hex(v) }))
+}
+fn b(v: bool) -> Sx {
+    A(if v { "t" } else { "f" }.to_string())
+}
+fn none() -> Sx {
+    A("-".to_string())
+}
+fn tag(t: &str) -> Sx {
+    A(t.to_string())
+}
+fn o<T>(v: Option<T>, f: impl Fn(T) -> Sx) -> Sx {
+    match v {
+        Some(x) => f(x),
+        None => none(),
+    }
+}
+fn os_(v: Option<&str>) -> Sx {
+    o(v, s)
+}
+fn on(v: Option<u64>) -> Sx {
+    o(v, n)
+}
+
+// ------------------------------------------------------------------- recipe -> ProcessState
+
+fn leak(s: String) -> &'static str {
+    Box::leak(s.into_boxed_str())
+}
+
+fn mk_reason(x: &Sx) -> Option<CrashReason> {
+    use minidump_common::errors as err;
+    let l = x.as_list()?;
+    if l.len() != 4 || l[0].atom()? != "r" {
+        return None;
+    }
+    let (idx, a, bb) = (l[1].nat()?, l[2].nat()?, l[3].nat()?);
+    Some(match idx {
+        0 => CrashReason::Unknown(a as u32, bb as u32),
+        1 => CrashReason::WindowsUnknown(a as u32),
+        2 => CrashReason::WindowsStackBufferOverrun(a),
+        3 => CrashReason::LinuxGeneral(err::ExceptionCodeLinux::SIGILL, a as u32),
+        4 => CrashReason::WindowsGeneral(err::ExceptionCodeWindows::EXCEPTION_ACCESS_VIOLATION),
+        5 => CrashReason::MacGeneral(err::ExceptionCodeMac::EXC_BAD_ACCESS, a as u32),
+        6 => CrashReason::WindowsAccessViolation(err::ExceptionCodeWindowsAccessType::READ),
+        7 => CrashReason::LinuxSigsegv(err::ExceptionCodeLinuxSigsegvKind::SEGV_MAPERR),
+        8 => CrashReason::MacResource(err::ExceptionCodeMacResourceType::RESOURCE_TYPE_MEMORY, a, bb),
+        _ => return None,
+    })
+}
+
+const CTX_KINDS: [&str; 9] = ["x86", "amd64", "arm", "arm64", "oldarm64", "mips", "ppc", "ppc64", "sparc"];
+
+fn mk_ctx(x: &Sx) -> Option<MinidumpContext> {
+    let l = x.as_list()?;
+    if l.len() != 3 {
+        return None;
+    }
+    let kind = l[0].atom()?;
+    let seed = l[1].nat()?;
+    let mut rng = Rng(seed);
+    let mut buf = vec![0u8; 8192];
+    for c in buf.chunks_mut(8) {
+        let v = match rng.below(4) {
+            0 => 0u64,
+            1 => rng.below(0x1_0000),
+            _ => rng.next(),
+        };
+        c.copy_from_slice(&v.to_le_bytes());
+    }
+    let le = scroll::LE;
+    let raw = match kind {
+        "x86" => MinidumpRawContext::X86(buf.pread_with(0, le).ok()?),
+        "amd64" => MinidumpRawContext::Amd64(buf.pread_with(0, le).ok()?),
+        "arm" => MinidumpRawContext::Arm(buf.pread_with(0, le).ok()?),
+        "arm64" => MinidumpRawContext::Arm64(buf.pread_with(0, le).ok()?),
+        "oldarm64" => MinidumpRawContext::OldArm64(buf.pread_with(0, le).ok()?),
+        "mips" => MinidumpRawContext::Mips(buf.pread_with(0, le).ok()?),
+        "ppc" => MinidumpRawContext::Ppc(buf.pread_with(0, le).ok()?),
+        "ppc64" => MinidumpRawContext::Ppc64(buf.pread_with(0, le).ok()?),
+        "sparc" => MinidumpRawContext::Sparc(buf.pread_with(0, le).ok()?),
+        _ => return None,
+    };
+    let valid = if l[2].is_none() {
+        MinidumpContextValidity::All
+    } else {
+        let names = l[2].list(|x| x.string())?;
+        let mut set: HashSet<&'static str> = HashSet::new();
+        for nm in names {
+            set.insert(leak(nm));
+        }
+        MinidumpContextValidity::Some(set)
+    };
+    Some(MinidumpContext { raw, valid })
+}
+
+fn mk_trust(t: &str) -> Option<FrameTrust> {
+    Some(match t {
+        "none" => FrameTrust::None,
+        "scan" => FrameTrust::Scan,
+        "cfi_scan" => FrameTrust::CfiScan,
+        "frame_pointer" => FrameTrust::FramePointer,
+        "cfi" => FrameTrust::CallFrameInfo,
+        "prewalked" => FrameTrust::PreWalked,
+        "context" => FrameTrust::Context,
+        _ => return None,
+    })
+}
+
+fn mk_frame(x: &Sx) -> Option<StackFrame> {
+    let l = x.as_list()?;
+    if l.len() != 10 {
+        return None;
+    }
+    let ctx = mk_ctx(&l[9])?;
+    let mut f = StackFrame::from_context(ctx, mk_trust(l[8].atom()?)?);
+    f.instruction = l[0].nat()?;
+    f.resume_address = f.instruction.wrapping_add(1);
+    f.module = l[1].opt(|m| {
+        let m = m.as_list()?;
+        Some(MinidumpModule::new(m.get(1)?.nat()?, 0x1000, &m.first()?.string()?))
+    })?;
+    let mut unl: BTreeMap<String, BTreeSet<u64>> = BTreeMap::new();
+    for u in l[2].as_list()? {
+        let u = u.as_list()?;
+        let offs: BTreeSet<u64> = u.get(1)?.list(|x| x.nat())?.into_iter().collect();
+        unl.insert(u.first()?.string()?, offs);
+    }
+    f.unloaded_modules = unl;
+    f.function_name = l[3].opt(|x| x.string())?;
+    f.function_base = l[4].opt(|x| x.nat())?;
+    f.parameter_size = f.function_base.map(|_| 0);
+    f.source_file_name = l[5].opt(|x| x.string())?;
+    f.source_line = l[6].opt(|x| x.nat())?.map(|v| v as u32);
+    f.source_line_base = f.source_line.map(|_| f.instruction);
+    f.inlines = l[7].list(|i| {
+        let i = i.as_list()?;
+        Some(InlineFrame {
+            function_name: i.first()?.string()?,
+            source_file_name: i.get(1)?.opt(|x| x.string())?,
+            source_line: i.get(2)?.opt(|x| x.nat())?.map(|v| v as u32),
+        })
+    })?;
+    Some(f)
+}
+
+fn mk_thread(x: &Sx) -> Option<CallStack> {
+    let l = x.as_list()?;
+    if l.len() != 4 {
+        return None;
+    }
+    Some(CallStack {
+        frames: l[0].list(mk_frame)?,
+        info: CallStackInfo::Ok,
+        thread_id: l[1].nat()? as u32,
+        thread_name: l[2].opt(|x| x.string())?,
+        last_error_value: l[3].opt(mk_reason)?,
+    })
+}
+
+fn mk_os(x: &Sx) -> Option<Os> {
+    if let Some(l) = x.as_list() {
+        if l.len() == 2 && l[0].atom()? == "unknown" {
+            return Some(Os::Unknown(l[1].nat()? as u32));
+        }
+        return None;
+    }
+    Some(match x.atom()? {
+        "windows" => Os::Windows,
+        "macos" => Os::MacOs,
+        "ios" => Os::Ios,
+        "linux" => Os::Linux,
+        "solaris" => Os::Solaris,
+        "android" => Os::Android,
+        "ps3" => Os::Ps3,
+        "nacl" => Os::NaCl,
+        _ => return None,
+    })
+}
+fn mk_cpu(t: &str) -> Option<Cpu> {
+    Some(match t {
+        "x86" => Cpu::X86,
+        "amd64" => Cpu::X86_64,
+        "ppc" => Cpu::Ppc,
+        "ppc64" => Cpu::Ppc64,
+        "sparc" => Cpu::Sparc,
+        "arm" => Cpu::Arm,
+        "arm64" => Cpu::Arm64,
+        "mips" => Cpu::Mips,
+        "mips64" => Cpu::Mips64,
+        "unknown" => Cpu::Unknown(0x1234),
+        _ => return None,
+    })
+}
+
+fn guid16(x: &Sx) -> Option<[u8; 16]> {
+    let v = x.bytes()?;
+    v.try_into().ok()
+}
+
+fn mk_module(x: &Sx) -> Option<MinidumpModule> {
+    let l = x.as_list()?;
+    if l.len() != 13 {
+        return None;
+    }
+    let name = l[2].string()?;
+    let mut bytes: Vec<u8> = Vec::new();
+    let u16s: Vec<u16> = name.encode_utf16().collect();
+    bytes.extend_from_slice(&((u16s.len() * 2) as u32).to_le_bytes());
+    for u in &u16s {
+        bytes.extend_from_slice(&u.to_le_bytes());
+    }
+    let mut raw = md::MINIDUMP_MODULE {
+        base_of_image: l[0].nat()?,
+        size_of_image: l[1].nat()? as u32,
+        time_date_stamp: l[7].nat()? as u32,
+        module_name_rva: 0,
+        ..Default::default()
+    };
+    let cv_start = bytes.len();
+    match l[3].atom()? {
+        "none" => {}
+        "pdb70" => {
+            bytes.extend_from_slice(&0x53445352u32.to_le_bytes());
+            bytes.extend_from_slice(&guid16(&l[5])?);
+            bytes.extend_from_slice(&(l[6].nat()? as u32).to_le_bytes());
+            bytes.extend_from_slice(&l[4].bytes()?);
+            bytes.push(0);
+        }
+        "elf" => {
+            bytes.extend_from_slice(&0x4270454cu32.to_le_bytes());
+            bytes.extend_from_slice(&l[5].bytes()?);
+        }
+        _ => return None,
+    }
+    if bytes.len() > cv_start {
+        raw.cv_record = md::MINIDUMP_LOCATION_DESCRIPTOR {
+            data_size: (bytes.len() - cv_start) as u32,
+            rva: cv_start as u32,
+        };
+    }
+    if l[8].boolean()? {
+        raw.version_info.signature = md::VS_FFI_SIGNATURE;
+        raw.version_info.struct_version = md::VS_FFI_STRUCVERSION;
+        raw.version_info.file_version_hi = l[9].nat()? as u32;
+        raw.version_info.file_version_lo = l[10].nat()? as u32;
+        raw.version_info.product_version_hi = l[11].nat()? as u32;
+        raw.version_info.product_version_lo = l[12].nat()? as u32;
+    }
+    MinidumpModule::read(raw, &bytes, scroll::LE, None).ok()
+}
+
+fn mk_limit(x: &Sx) -> Option<Limit> {
+    if let Some(v) = x.nat() {
+        return Some(Limit::Limited(v));
+    }
+    Some(match x.atom()? {
+        "err" => Limit::Error,
+        "unlimited" => Limit::Unlimited,
+        _ => return None,
+    })
+}
+
+fn mk_mac(x: &Sx) -> Option<RawMacCrashInfo> {
+    let l = x.as_list()?;
+    if l.len() != 9 {
+        return None;
+    }
+    let (ver, thread, dialog_mode, abort_cause) = (l[0].nat()?, l[1].nat()?, l[2].nat()?, l[3].nat()?);
+    let st: Vec<String> = l[4..9].iter().map(|x| x.string()).collect::<Option<_>>()?;
+    Some(match ver {
+        1 => RawMacCrashInfo::V1(
+            md::MINIDUMP_MAC_CRASH_INFO_RECORD { stream_type: 0, version: 1 },
+            md::MINIDUMP_MAC_CRASH_INFO_RECORD_STRINGS {},
+        ),
+        4 => RawMacCrashInfo::V4(
+            md::MINIDUMP_MAC_CRASH_INFO_RECORD_4 { stream_type: 0, version: 4, thread, dialog_mode },
+            md::MINIDUMP_MAC_CRASH_INFO_RECORD_STRINGS_4 {
+                module_path: st[0].clone(),
+                message: st[1].clone(),
+                signature_string: st[2].clone(),
+                backtrace: st[3].clone(),
+                message2: st[4].clone(),
+            },
+        ),
+        5 => RawMacCrashInfo::V5(
+            md::MINIDUMP_MAC_CRASH_INFO_RECORD_5 { stream_type: 0, version: 5, thread, dialog_mode, abort_cause },
+            md::MINIDUMP_MAC_CRASH_INFO_RECORD_STRINGS_5 {
+                module_path: st[0].clone(),
+                message: st[1].clone(),
+                signature_string: st[2].clone(),
+                backtrace: st[3].clone(),
+                message2: st[4].clone(),
+            },
+        ),
+        _ => return None,
+    })
+}
+
+fn mk_handle(x: &Sx) -> Option<MinidumpHandleDescriptor> {
+    let l = x.as_list()?;
+    if l.len() != 4 {
+        return None;
+    }
+    let handle = l[1].nat()?;
+    let raw = match l[0].nat()? {
+        1 => RawHandleDescriptor::HandleDescriptor(md::MINIDUMP_HANDLE_DESCRIPTOR {
+            handle,
+            type_name_rva: 0,
+            object_name_rva: 0,
+            attributes: 0,
+            granted_access: 0,
+            handle_count: 1,
+            pointer_count: 1,
+        }),
+        2 => {
+            let mut bytes = vec![0u8; 64];
+            bytes[..8].copy_from_slice(&handle.to_le_bytes());
+            RawHandleDescriptor::HandleDescriptor2(bytes.pread_with(0, scroll::LE).ok()?)
+        }
+        _ => return None,
+    };
+    Some(MinidumpHandleDescriptor {
+        raw,
+        type_name: l[2].opt(|x| x.string())?,
+        object_name: l[3].opt(|x| x.string())?,
+        object_infos: vec![],
+    })
+}
+
+fn mk_incons(t: &str) -> Option<CrashInconsistency> {
+    Some(match t {
+        "intdiv" => CrashInconsistency::IntDivByZeroNotPossible,
+        "priv" => CrashInconsistency::PrivInstructionCrashWithoutPrivInstruction,
+        "noncanon" => CrashInconsistency::NonCanonicalAddressFalselyReported,
+        "accessallowed" => CrashInconsistency::AccessViolationWhenAccessAllowed,
+        "notfound" => CrashInconsistency::CrashingAccessNotFoundInMemoryAccesses,
+        _ => return None,
+    })
+}
+
+fn mk_exc(x: &Sx) -> Option<ExceptionInfo> {
+    let l = x.as_list()?;
+    if l.len() != 7 {
+        return None;
+    }
+    let adjusted_address = l[2].opt(|a| {
+        let a = a.as_list()?;
+        let v = a.get(1)?.nat()?;
+        Some(match a.first()?.atom()? {
+            "noncanonical" => AdjustedAddress::NonCanonical(Address(v)),
+            "nulloffset" => AdjustedAddress::NullPointerWithOffset(Address(v)),
+            _ => return None,
+        })
+    })?;
+    let possible_bit_flips = l[5].list(|f| {
+        let f = f.as_list()?;
+        if f.len() != 8 {
+            return None;
+        }
+        Some(PossibleBitFlip {
+            address: Address(f[0].nat()?),
+            source_register: f[1].opt(|x| x.string())?.map(leak),
+            details: BitFlipDetails {
+                was_non_canonical: f[2].boolean()?,
+                is_null: f[3].boolean()?,
+                was_low: f[4].boolean()?,
+                nearby_registers: f[5].nat()? as u32,
+                poison_registers: f[6].boolean()?,
+            },
+            confidence: f[7].opt(|x| x.nat())?.map(|bits| f32::from_bits(bits as u32)),
+        })
+    })?;
+    // l[4] (harvest selector) must be `-`: the op_analysis types are private to the crate
+    if !l[4].is_none() {
+        return None;
+    }
+    Some(ExceptionInfo {
+        reason: mk_reason(&l[0])?,
+        address: Address(l[1].nat()?),
+        adjusted_address,
+        instruction_str: l[3].opt(|x| x.string())?,
+        instruction_properties: None,
+        memory_access_list: None,
+        instruction_pointer_update: None,
+        possible_bit_flips,
+        inconsistencies: l[6].list(|x| mk_incons(x.atom()?))?,
+    })
+}
+
+fn build(items: &[Sx]) -> Option<ProcessState> {
+    if items.len() != 17 {
+        return None;
+    }
+    let mut cert_info = HashMap::new();
+    for p in items[1].as_list()? {
+        let p = p.as_list()?;
+        cert_info.insert(p.first()?.string()?, p.get(1)?.string()?);
+    }
+    let sys = items[6].as_list()?;
+    if sys.len() != 7 {
+        return None;
+    }
+    let system_info = SystemInfo {
+        os: mk_os(&sys[0])?,
+        os_version: sys[1].opt(|x| x.string())?,
+        os_build: sys[2].opt(|x| x.string())?,
+        cpu: mk_cpu(sys[3].atom()?)?,
+        cpu_info: sys[4].opt(|x| x.string())?,
+        cpu_count: sys[5].nat()? as usize,
+        cpu_microcode_version: sys[6].opt(|x| x.nat())?,
+    };
+    let linux_standard_base = items[7].opt(|l| {
+        let l = l.as_list()?;
+        Some(LinuxStandardBase {
+            id: l.first()?.string()?,
+            release: l.get(1)?.string()?,
+            codename: l.get(2)?.string()?,
+            description: l.get(3)?.string()?,
+        })
+    })?;
+    let linux_proc_limits = items[8].opt(|l| {
+        let mut limits = HashMap::new();
+        for e in l.as_list()? {
+            let e = e.as_list()?;
+            limits.insert(
+                e.first()?.string()?,
+                LinuxProcLimit { soft: mk_limit(e.get(1)?)?, hard: mk_limit(e.get(2)?)?, unit: e.get(3)?.string()? },
+            );
+        }
+        Some(LinuxProcLimits { limits })
+    })?;
+    let mac_crash_info = items[9].opt(|l| l.list(mk_mac))?;
+    let mac_boot_args = items[10].opt(|l| {
+        let l = l.as_list()?;
+        Some(MinidumpMacBootargs {
+            raw: md::MINIDUMP_MAC_BOOTARGS { stream_type: 0, bootargs: 0 },
+            bootargs: l.first()?.opt(|x| x.string())?,
+        })
+    })?;
+    let modules = MinidumpModuleList::from_modules(items[11].list(mk_module)?);
+    let unloaded_modules = MinidumpUnloadedModuleList::from_modules(items[12].list(|u| {
+        let u = u.as_list()?;
+        let mut m = MinidumpUnloadedModule::new(u.first()?.nat()?, u.get(1)?.nat()? as u32, &u.get(2)?.string()?);
+        m.raw.time_date_stamp = u.get(3)?.nat()? as u32;
+        Some(m)
+    })?);
+    let handles = items[13].opt(|l| Some(MinidumpHandleDataStream { handles: l.list(mk_handle)? }))?;
+    let mut symbol_stats = HashMap::new();
+    for e in items[14].as_list()? {
+        let e = e.as_list()?;
+        if e.len() != 5 {
+            return None;
+        }
+        let extra = e[4].opt(|x| {
+            let x = x.as_list()?;
+            Some(breakpad_symbols::DebugInfoResult {
+                debug_file: x.first()?.string()?,
+                debug_identifier: debugid::DebugId::from_guid_age(&guid16(x.get(1)?)?, x.get(2)?.nat()? as u32).ok()?,
+            })
+        })?;
+        symbol_stats.insert(
+            e[0].string()?,
+            SymbolStats {
+                symbol_url: e[1].opt(|x| x.string())?,
+                loaded_symbols: e[2].boolean()?,
+                corrupt_symbols: e[3].boolean()?,
+                extra_debug_info: extra,
+            },
+        );
+    }
+    let soft_errors = items[16].opt(|x| {
+        let h = x.atom()?.strip_prefix('j')?;
+        serde_json::from_slice::<Value>(&unhex(h)?).ok()
+    })?;
+    Some(ProcessState {
+        process_id: items[0].opt(|x| x.nat())?.map(|v| v as u32),
+        time: std::time::SystemTime::UNIX_EPOCH,
+        process_create_time: None,
+        cert_info,
+        exception_info: items[2].opt(mk_exc)?,
+        assertion: items[3].opt(|x| x.string())?,
+        requesting_thread: items[4].opt(|x| x.nat())?.map(|v| v as usize),
+        threads: items[5].list(mk_thread)?,
+        system_info,
+        linux_standard_base,
+        linux_proc_limits,
+        mac_crash_info,
+        mac_boot_args,
+        modules,
+        unloaded_modules,
+        handles,
+        unknown_streams: vec![],
+        unimplemented_streams: vec![],
+        symbol_stats,
+        linux_memory_map_count: items[15].opt(|x| x.nat())?.map(|v| v as usize),
+        soft_errors,
+    })
+}
+
+// ------------------------------------------------ abstraction: ProcessState -> model request
+
+fn os_tag(os: &Os) -> Sx {
+    match os {
+        Os::Windows => tag("windows"),
+        Os::MacOs => tag("macos"),
+        Os::Ios => tag("ios"),
+        Os::Linux => tag("linux"),
+        Os::Solaris => tag("solaris"),
+        Os::Android => tag("android"),
+        Os::Ps3 => tag("ps3"),
+        Os::NaCl => tag("nacl"),
+        Os::Unknown(v) => L(vec![tag("unknown"), n(*v as u64)]),
+    }
+}
+fn cpu_tag(c: &Cpu) -> &'static str {
+    match c {
+        Cpu::X86 => "x86",
+        Cpu::X86_64 => "amd64",
+        Cpu::Ppc => "ppc",
+        Cpu::Ppc64 => "ppc64",
+        Cpu::Sparc => "sparc",
+        Cpu::Arm => "arm",
+        Cpu::Arm64 => "arm64",
+        Cpu::Mips => "mips",
+        Cpu::Mips64 => "mips64",
+        _ => "unknown",
+    }
+}
+fn trust_tag(t: &FrameTrust) -> &'static str {
+    match t {
+        FrameTrust::None => "none",
+        FrameTrust::Scan => "scan",
+        FrameTrust::CfiScan => "cfi_scan",
+        FrameTrust::FramePointer => "frame_pointer",
+        FrameTrust::CallFrameInfo => "cfi",
+        FrameTrust::PreWalked => "prewalked",
+        FrameTrust::Context => "context",
+    }
+}
+fn incons_tag(c: &CrashInconsistency) -> &'static str {
+    match c {
+        CrashInconsistency::IntDivByZeroNotPossible => "intdiv",
+        CrashInconsistency::PrivInstructionCrashWithoutPrivInstruction => "priv",
+        CrashInconsistency::NonCanonicalAddressFalselyReported => "noncanon",
+        CrashInconsistency::AccessViolationWhenAccessAllowed => "accessallowed",
+        CrashInconsistency::CrashingAccessNotFoundInMemoryAccesses => "notfound",
+    }
+}
+fn limit_sx(l: &Limit) -> Sx {
+    match l {
+        Limit::Error => tag("err"),
+        Limit::Unlimited => tag("unlimited"),
+        Limit::Limited(v) => n(*v),
+    }
+}
+
+fn alpha_ctx(ctx: &MinidumpContext) -> Sx {
+    let gpr: Vec<Sx> = ctx
+        .general_purpose_registers()
+        .iter()
+        .map(|r| L(vec![s(r), n(ctx.get_register_always(r))]))
+        .collect();
+    let valid = match &ctx.valid {
+        MinidumpContextValidity::All => none(),
+        MinidumpContextValidity::Some(set) => {
+            let mut v: Vec<&str> = set.iter().copied().collect();
+            v.sort();
+            L(v.into_iter().map(s).collect())
+        }
+    };
+    L(vec![n(ctx.register_size() as u64), L(gpr), valid])
+}
+
+fn after<'a>(text: &'a str, key: &str) -> Option<&'a str> {
+    let i = text.find(key)?;
+    let rest = &text[i + key.len()..];
+    let end = rest.find([',', ' ', '}']).unwrap_or(rest.len());
+    Some(&rest[..end])
+}
+
+fn alpha(ps: &ProcessState) -> Vec<Sx> {
+    let cert: Vec<Sx> = ps.cert_info.iter().map(|(k, v)| L(vec![s(k), s(v)])).collect();
+    let exc = o(ps.exception_info.as_ref(), |e| {
+        let adjusted = o(e.adjusted_address.as_ref(), |a| match a {
+            AdjustedAddress::NonCanonical(a) => L(vec![tag("noncanonical"), n(a.0)]),
+            AdjustedAddress::NullPointerWithOffset(a) => L(vec![tag("nulloffset"), n(a.0)]),
+        });
+        let memacc = o(e.memory_access_list.as_ref(), |l| {
+            L(l.iter()
+                .map(|a| {
+                    L(vec![
+                        n(a.address_info.address),
+                        on(a.size.map(|v| v as u64)),
+                        b(a.address_info.is_likely_guard_page),
+                        tag(&a.access_type.to_string().to_lowercase()),
+                    ])
+                })
+                .collect())
+        });
+        let ipupd = o(e.instruction_pointer_update.as_ref(), |u| {
+            let d = format!("{u:?}");
+            if d.starts_with("NoUpdate") {
+                tag("noupdate")
+            } else {
+                let addr = after(&d, "address: ").and_then(|v| v.parse::<u64>().ok()).unwrap_or(0);
+                let guard = after(&d, "is_likely_guard_page: ") == Some("true");
+                L(vec![tag("update"), n(addr), b(guard)])
+            }
+        });
+        let flips: Vec<Sx> = e
+            .possible_bit_flips
+            .iter()
+            .map(|f| {
+                let conf = match serde_json::to_value(f.confidence).unwrap_or(Value::Null) {
+                    Value::Null => none(),
+                    v => A(format!("j{}", hex(v.to_string().as_bytes()))),
+                };
+                L(vec![
+                    n(f.address.0),
+                    os_(f.source_register),
+                    b(f.details.was_non_canonical),
+                    b(f.details.is_null),
+                    b(f.details.was_low),
+                    n(f.details.nearby_registers as u64),
+                    b(f.details.poison_registers),
+                    conf,
+                ])
+            })
+            .collect();
+        L(vec![
+            s(&e.reason.to_string()),
+            n(e.address.0),
+            adjusted,
+            os_(e.instruction_str.as_deref()),
+            memacc,
+            ipupd,
+            L(flips),
+            L(e.inconsistencies.iter().map(|c| tag(incons_tag(c))).collect()),
+        ])
+    });
+    let threads: Vec<Sx> = ps
+        .threads
+        .iter()
+        .map(|t| {
+            let frames: Vec<Sx> = t
+                .frames
+                .iter()
+                .enumerate()
+                .map(|(i, f)| {
+                    L(vec![
+                        n(f.instruction),
+                        o(f.module.as_ref(), |m| L(vec![s(&m.name), n(m.raw.base_of_image)])),
+                        L(f.unloaded_modules
+                            .iter()
+                            .map(|(k, v)| L(vec![s(k), L(v.iter().map(|x| n(*x)).collect())]))
+                            .collect()),
+                        os_(f.function_name.as_deref()),
+                        on(f.function_base),
+                        os_(f.source_file_name.as_deref()),
+                        on(f.source_line.map(|v| v as u64)),
+                        L(f.inlines
+                            .iter()
+                            .map(|i| {
+                                L(vec![
+                                    s(&i.function_name),
+                                    os_(i.source_file_name.as_deref()),
+                                    on(i.source_line.map(|v| v as u64)),
+                                ])
+                            })
+                            .collect()),
+                        tag(trust_tag(&f.trust)),
+                        if i == 0 { alpha_ctx(&f.context) } else { L(vec![n(0), L(vec![]), none()]) },
+                    ])
+                })
+                .collect();
+            L(vec![
+                L(frames),
+                n(t.thread_id as u64),
+                os_(t.thread_name.as_deref()),
+                o(t.last_error_value.as_ref(), |r| s(&r.to_string())),
+            ])
+        })
+        .collect();
+    let si = &ps.system_info;
+    let sys = L(vec![
+        os_tag(&si.os),
+        os_(si.os_version.as_deref()),
+        os_(si.os_build.as_deref()),
+        tag(cpu_tag(&si.cpu)),
+        os_(si.cpu_info.as_deref()),
+        n(si.cpu_count as u64),
+        on(si.cpu_microcode_version),
+    ]);
+    let lsb = o(ps.linux_standard_base.as_ref(), |l| {
+        L(vec![s(&l.id), s(&l.release), s(&l.codename), s(&l.description)])
+    });
+    let limits = o(ps.linux_proc_limits.as_ref(), |l| {
+        L(l.limits
+            .iter()
+            .map(|(k, v)| L(vec![s(k), limit_sx(&v.soft), limit_sx(&v.hard), s(&v.unit)]))
+            .collect())
+    });
+    let mac = o(ps.mac_crash_info.as_ref(), |rs| {
+        L(rs.iter()
+            .map(|r| {
+                L(vec![
+                    on(r.thread().copied()),
+                    on(r.dialog_mode().copied()),
+                    on(r.abort_cause().copied()),
+                    os_(r.module_path()),
+                    os_(r.message()),
+                    os_(r.signature_string()),
+                    os_(r.backtrace()),
+                    os_(r.message2()),
+                ])
+            })
+            .collect())
+    });
+    let boot = o(ps.mac_boot_args.as_ref(), |bt| L(vec![os_(bt.bootargs.as_deref())]));
+    let modules: Vec<Sx> = ps
+        .modules
+        .iter()
+        .map(|m| {
+            L(vec![
+                n(m.raw.base_of_image),
+                n(m.raw.size_of_image as u64),
+                s(&m.code_file()),
+                o(m.debug_file(), |d| s(&d)),
+                s(&m.debug_identifier().unwrap_or_default().breakpad().to_string()),
+                s(m.code_identifier().unwrap_or_default().as_str()),
+                o(m.version(), |v| s(&v)),
+            ])
+        })
+        .collect();
+    let unloaded: Vec<Sx> = ps
+        .unloaded_modules
+        .iter()
+        .map(|m| {
+            L(vec![
+                n(m.raw.base_of_image),
+                n(m.raw.size_of_image as u64),
+                s(&m.name),
+                s(m.code_identifier().unwrap_or_default().as_str()),
+            ])
+        })
+        .collect();
+    let handles = o(ps.handles.as_ref(), |h| {
+        L(h.handles
+            .iter()
+            .map(|h| {
+                L(vec![n(*h.raw.handle().unwrap_or(&0)), os_(h.type_name.as_deref()), os_(h.object_name.as_deref())])
+            })
+            .collect())
+    });
+    let stats: Vec<Sx> = ps
+        .symbol_stats
+        .iter()
+        .map(|(k, v)| {
+            L(vec![
+                s(k),
+                os_(v.symbol_url.as_deref()),
+                b(v.loaded_symbols),
+                b(v.corrupt_symbols),
+                o(v.extra_debug_info.as_ref(), |e| {
+                    L(vec![s(&e.debug_file), s(&e.debug_identifier.breakpad().to_string())])
+                }),
+            ])
+        })
+        .collect();
+    let soft = o(ps.soft_errors.as_ref(), |v| A(format!("j{}", hex(v.to_string().as_bytes()))));
+    vec![
+        on(ps.process_id.map(|v| v as u64)),
+        L(cert),
+        exc,
+        os_(ps.assertion.as_deref()),
+        on(ps.requesting_thread.map(|v| v as u64)),
+        L(threads),
+        sys,
+        lsb,
+        limits,
+        mac,
+        boot,
+        L(modules),
+        L(unloaded),
+        handles,
+        L(stats),
+        on(ps.linux_memory_map_count.map(|v| v as u64)),
+        soft,
+    ]
+}
+
+// --------------------------------------------------------------------------------- oracle
+
+fn platform_digits(cpu: &Cpu) -> usize {
+    match cpu {
+        Cpu::X86 | Cpu::Ppc | Cpu::Sparc | Cpu::Arm | Cpu::Mips => 8,
+        _ => 16,
+    }
+}
+
+/// `0x` + lower-case hex, exactly `w` digits unless the value needs more (then no leading zero)
+fn hex_ok(v: &Value, w: usize) -> Option<u64> {
+    let s = v.as_str()?;
+    let d = s.strip_prefix("0x")?;
+    if d.is_empty() || !d.bytes().all(|c| c.is_ascii_digit() || (b'a'..=b'f').contains(&c)) {
+        return None;
+    }
+    if d.len() < w || (d.len() > w && d.starts_with('0')) {
+        return None;
+    }
+    u64::from_str_radix(d, 16).ok()
+}
+
+fn is_u32(v: &Value) -> bool {
+    v.as_u64().map_or(false, |x| x <= u32::MAX as u64)
+}
+
+struct Oracle {
+    fails: Vec<(String, String)>,
+}
+impl Oracle {
+    fn fail(&mut self, class: &str, detail: String) {
+        if !self.fails.iter().any(|(c, _)| c == class) {
+            self.fails.push((class.to_string(), detail));
+        }
+    }
+    /// `v` must be null or an address hex string of the platform width; returns its value
+    fn addr(&mut self, v: &Value, w: usize, path: &str) -> Option<u64> {
+        if v.is_null() {
+            return None;
+        }
+        let r = hex_ok(v, w);
+        if r.is_none() {
+            self.fail("hex-width", format!("{path} = {v} is not a 0x-prefixed lower-case hex string of {w} digits"));
+        }
+        r
+    }
+    fn u32f(&mut self, v: &Value, path: &str) {
+        if !v.is_null() && !is_u32(v) {
+            self.fail("schema-u32", format!("{path} = {v} is documented <u32>"));
+        }
+    }
+}
+
+fn check_thread(or: &mut Oracle, tj: &Value, t: &CallStack, w: usize, path: &str) {
+    let frames = tj["frames"].as_array().cloned().unwrap_or_default();
+    if tj["frame_count"].as_u64() != Some(frames.len() as u64) || frames.len() != t.frames.len() {
+        or.fail("frame-count", format!("{path}.frame_count = {} but frames has {} entries ({} in the state)",
+            tj["frame_count"], frames.len(), t.frames.len()));
+    }
+    or.u32f(&tj["frame_count"], &format!("{path}.frame_count"));
+    or.u32f(&tj["thread_id"], &format!("{path}.thread_id"));
+    for (i, (fj, f)) in frames.iter().zip(t.frames.iter()).enumerate() {
+        let p = format!("{path}.frames[{i}]");
+        if fj["frame"].as_u64() != Some(i as u64) {
+            or.fail("frame-number", format!("{p}.frame = {} at position {i}", fj["frame"]));
+        }
+        or.u32f(&fj["line"], &format!("{p}.line"));
+        let off = or.addr(&fj["offset"], w, &format!("{p}.offset"));
+        if off != Some(f.instruction) {
+            or.fail("offset", format!("{p}.offset = {} but the frame's instruction is {:#x}", fj["offset"], f.instruction));
+        }
+        let mo = or.addr(&fj["module_offset"], w, &format!("{p}.module_offset"));
+        match (&f.module, mo) {
+            (Some(m), Some(mo)) => {
+                if f.instruction.checked_sub(m.raw.base_of_image) != Some(mo) {
+                    or.fail("module-offset", format!("{p}.module_offset = {mo:#x} but offset {:#x} - base {:#x}",
+                        f.instruction, m.raw.base_of_image));
+                }
+                if fj["module"].as_str() != Some(minidump_common::utils::basename(&m.name)) {
+                    or.fail("module-name", format!("{p}.module = {}", fj["module"]));
+                }
+            }
+            (None, None) => {
+                if !fj["module"].is_null() {
+                    or.fail("module-name", format!("{p}.module = {} without a module", fj["module"]));
+                }
+            }
+            _ => or.fail("module-offset", format!("{p}.module_offset = {} (module present: {})", fj["module_offset"], f.module.is_some())),
+        }
+        let fo = or.addr(&fj["function_offset"], w, &format!("{p}.function_offset"));
+        match (f.function_base, fo) {
+            (Some(fb), Some(fo)) => {
+                if f.instruction.checked_sub(fb) != Some(fo) {
+                    or.fail("function-offset", format!("{p}.function_offset = {fo:#x} but offset {:#x} - base {fb:#x}", f.instruction));
+                }
+            }
+            (None, None) => {}
+            _ => or.fail("function-offset", format!("{p}.function_offset = {}", fj["function_offset"])),
+        }
+        if fj["missing_symbols"].as_bool() != Some(fj["function"].is_null()) {
+            or.fail("missing-symbols", format!("{p}.missing_symbols = {} function = {}", fj["missing_symbols"], fj["function"]));
+        }
+        if let Some(us) = fj["unloaded_modules"].as_array() {
+            for (k, u) in us.iter().enumerate() {
+                for (m, x) in u["offsets"].as_array().cloned().unwrap_or_default().iter().enumerate() {
+                    or.addr(x, w, &format!("{p}.unloaded_modules[{k}].offsets[{m}]"));
+                }
+            }
+        }
+    }
+}
+
+/// the property's oracle, evaluated on the implementation's output and the state it was given
+fn oracle(ps: &ProcessState, compact: &[u8], pretty: &[u8]) -> (Vec<(String, String)>, Option<Value>) {
+    let mut or = Oracle { fails: vec![] };
+    let text = match std::str::from_utf8(compact) {
+        Ok(t) => t,
+        Err(e) => {
+            or.fail("invalid-utf8", format!("{e}"));
+            return (or.fails, None);
+        }
+    };
+    let j: Value = match serde_json::from_str(text) {
+        Ok(v) => v,
+        Err(e) => {
+            or.fail("invalid-json", format!("{e}"));
+            return (or.fails, None);
+        }
+    };
+    match serde_json::from_slice::<Value>(pretty) {
+        Ok(p) => {
+            if p != j {
+                or.fail("pretty-differs", "pretty output parses to a different value".into());
+            }
+        }
+        Err(e) => or.fail("invalid-json-pretty", format!("{e}")),
+    }
+    let w = platform_digits(&ps.system_info.cpu);
+    // --- redundant counts
+    let threads = j["threads"].as_array().cloned().unwrap_or_default();
+    if j["thread_count"].as_u64() != Some(threads.len() as u64) || threads.len() != ps.threads.len() {
+        or.fail("thread-count", format!("thread_count = {} but threads has {} entries ({} in the state)",
+            j["thread_count"], threads.len(), ps.threads.len()));
+    }
+    for (i, (tj, t)) in threads.iter().zip(ps.threads.iter()).enumerate() {
+        check_thread(&mut or, tj, t, w, &format!("threads[{i}]"));
+    }
+    // --- crashing thread copy
+    let want_copy = ps
+        .requesting_thread
+        .and_then(|i| ps.threads.get(i))
+        .map_or(false, |t| !t.frames.is_empty());
+    match (want_copy, j.get("crashing_thread")) {
+        (false, None) => {}
+        (true, Some(ct)) => {
+            let i = ps.requesting_thread.unwrap();
+            if ct["threads_index"].as_u64() != Some(i as u64) || j["crash_info"]["crashing_thread"].as_u64() != Some(i as u64) {
+                or.fail("crashing-thread-index", format!("threads_index = {} crash_info.crashing_thread = {} requesting thread = {i}",
+                    ct["threads_index"], j["crash_info"]["crashing_thread"]));
+            }
+            let mut stripped = ct.clone();
+            let regs = stripped["frames"][0].as_object_mut().and_then(|f| f.remove("registers"));
+            if let Some(o) = stripped.as_object_mut() {
+                o.remove("threads_index");
+            }
+            if Some(&stripped) != threads.get(i) {
+                or.fail("crashing-thread-copy", format!("crashing_thread minus registers/threads_index differs from threads[{i}]"));
+            }
+            match regs {
+                Some(Value::Object(m)) => {
+                    for (k, v) in &m {
+                        if hex_ok(v, 1).is_none() && v.as_str().map_or(true, |s| !s.starts_with("0x")) {
+                            or.fail("registers", format!("register {k} = {v}"));
+                        }
+                    }
+                    // exactly the valid general purpose registers of frame 0's context
+                    let ctx = &ps.threads[i].frames[0].context;
+                    let want: BTreeSet<&str> = ctx
+                        .general_purpose_registers()
+                        .iter()
+                        .copied()
+                        .filter(|r| match &ctx.valid {
+                            MinidumpContextValidity::All => true,
+                            MinidumpContextValidity::Some(set) => set.contains(r),
+                        })
+                        .collect();
+                    let got: BTreeSet<&str> = m.keys().map(|k| k.as_str()).collect();
+                    if want != got {
+                        or.fail("registers", format!("registers {got:?} but the valid general purpose registers are {want:?}"));
+                    }
+                }
+                _ => or.fail("registers", "crashing_thread.frames[0].registers is not an object".into()),
+            }
+            check_thread(&mut or, ct, &ps.threads[i], w, "crashing_thread");
+        }
+        (a, bb) => or.fail("crashing-thread-copy", format!("crashing_thread present: {} expected: {a}", bb.is_some())),
+    }
+    // --- modules mirror
+    let mods = j["modules"].as_array().cloned().unwrap_or_default();
+    let real: Vec<&MinidumpModule> = ps.modules.iter().collect();
+    if mods.len() != real.len() {
+        or.fail("modules-mirror", format!("modules has {} entries, the module list {}", mods.len(), real.len()));
+    }
+    for (i, (mj, m)) in mods.iter().zip(real.iter()).enumerate() {
+        let p = format!("modules[{i}]");
+        let base = or.addr(&mj["base_addr"], w, &format!("{p}.base_addr"));
+        let end = or.addr(&mj["end_addr"], w, &format!("{p}.end_addr"));
+        if base != Some(m.raw.base_of_image)
+            || end != m.raw.base_of_image.checked_add(m.raw.size_of_image as u64)
+            || mj["filename"].as_str() != Some(minidump_common::utils::basename(&m.name))
+        {
+            or.fail("modules-mirror", format!("{p} = {mj} for module {:#x}+{:#x} {:?}", m.raw.base_of_image, m.raw.size_of_image, m.name));
+        }
+    }
+    let umods = j["unloaded_modules"].as_array().cloned().unwrap_or_default();
+    let ureal: Vec<&MinidumpUnloadedModule> = ps.unloaded_modules.iter().collect();
+    if umods.len() != ureal.len() {
+        or.fail("modules-mirror", format!("unloaded_modules has {} entries, the list {}", umods.len(), ureal.len()));
+    }
+    for (i, (mj, m)) in umods.iter().zip(ureal.iter()).enumerate() {
+        let p = format!("unloaded_modules[{i}]");
+        let base = or.addr(&mj["base_addr"], w, &format!("{p}.base_addr"));
+        let end = or.addr(&mj["end_addr"], w, &format!("{p}.end_addr"));
+        if base != Some(m.raw.base_of_image)
+            || end != m.raw.base_of_image.checked_add(m.raw.size_of_image as u64)
+            || mj["filename"].as_str() != Some(m.name.as_str())
+        {
+            or.fail("modules-mirror", format!("{p} = {mj}"));
+        }
+    }
+    // --- remaining address-typed fields
+    let ci = &j["crash_info"];
+    or.addr(&ci["address"], w, "crash_info.address");
+    or.addr(&ci["adjusted_address"]["address"], w, "crash_info.adjusted_address.address");
+    or.addr(&ci["adjusted_address"]["offset"], w, "crash_info.adjusted_address.offset");
+    or.addr(&ci["instruction_pointer_update"]["address"], w, "crash_info.instruction_pointer_update.address");
+    for (i, a) in ci["memory_accesses"].as_array().cloned().unwrap_or_default().iter().enumerate() {
+        or.addr(&a["address"], w, &format!("crash_info.memory_accesses[{i}].address"));
+    }
+    for (i, a) in ci["possible_bit_flips"].as_array().cloned().unwrap_or_default().iter().enumerate() {
+        or.addr(&a["address"], w, &format!("crash_info.possible_bit_flips[{i}].address"));
+    }
+    for (i, r) in j["mac_crash_info"]["records"].as_array().cloned().unwrap_or_default().iter().enumerate() {
+        for k in ["thread", "dialog_mode", "abort_cause"] {
+            or.addr(&r[k], w, &format!("mac_crash_info.records[{i}].{k}"));
+        }
+    }
+    if j["mac_crash_info"].is_object()
+        && j["mac_crash_info"]["num_records"].as_u64() != j["mac_crash_info"]["records"].as_array().map(|a| a.len() as u64)
+    {
+        or.fail("num-records", format!("num_records = {}", j["mac_crash_info"]["num_records"]));
+    }
+    // --- documented <u32> fields and closed facts
+    for k in ["pid", "thread_count", "main_module", "linux_memory_map_count"] {
+        or.u32f(&j[k], k);
+    }
+    or.u32f(&ci["crashing_thread"], "crash_info.crashing_thread");
+    or.u32f(&j["system_info"]["cpu_count"], "system_info.cpu_count");
+    if j["status"].as_str() != Some("OK") || !j["system_info"].is_object() || !ci.is_object() {
+        or.fail("schema-shape", "status/system_info/crash_info".into());
+    }
+    // --- the three places where the code leaves the documented schema (known findings)
+    if let Some(os) = j["system_info"]["os"].as_str() {
+        let listed = ["Windows NT", "Mac OS X", "iOS", "Linux", "Solaris", "Android", "PS3", "NaCl"];
+        if !listed.contains(&os) && hex_ok(&j["system_info"]["os"], 1).is_none() {
+            or.fail("schema-os-unknown-not-hexstring", format!("system_info.os = {os:?} is neither a listed name nor a <hexstring>"));
+        }
+    }
+    for (i, h) in j["handles"].as_array().cloned().unwrap_or_default().iter().enumerate() {
+        // documented <u64> since /repo b67afac
+        if !h["handle"].is_null() && h["handle"].as_u64().is_none() {
+            or.fail("schema-handle-not-u64", format!("handles[{i}].handle = {} is documented <u64>", h["handle"]));
+        }
+    }
+    // soft_errors: print_json passes the public field through; that it is a list of objects is
+    // established by the processor (/repo 7c77347) and checked on the processor path (`json proc …`)
+    (or.fails, Some(j))
+}
+
+/// first path at which the Lean `Conforms` is expected to object (schema order): the unknown-OS
+/// spelling (known finding) and directly constructed `soft_errors` values the processor would
+/// not have passed on
+fn expected_conforms(j: &Value) -> String {
+    if let Some(os) = j["system_info"]["os"].as_str() {
+        let listed = ["Windows NT", "Mac OS X", "iOS", "Linux", "Solaris", "Android", "PS3", "NaCl"];
+        if !listed.contains(&os) && hex_ok(&j["system_info"]["os"], 1).is_none() {
+            return "10@$.system_info.os".into();
+        }
+    }
+    match &j["soft_errors"] {
+        Value::Null => {}
+        Value::Array(a) => {
+            if let Some(i) = a.iter().position(|x| !(x.is_object() || x.is_null())) {
+                return format!("10@$.soft_errors[{i}]");
+            }
+        }
+        _ => return "10@$.soft_errors".into(),
+    }
+    "11".into()
+}
+
+/// states on which `Conforms` is predictable from the three detectors above: the generator's
+/// deliberate departures from well-formedness (empty offset sets, counts ≥ 2^32) are excluded
+fn conforms_predictable(ps: &ProcessState) -> bool {
+    ps.system_info.cpu_count <= u32::MAX as usize
+        && ps.linux_memory_map_count.map_or(true, |c| c <= u32::MAX as usize)
+        && ps.threads.iter().all(|t| t.frames.iter().all(|f| f.unloaded_modules.values().all(|s| !s.is_empty())))
+}
+
+// ------------------------------------------------------------------------------ running a case
+
+struct Run {
+    ps: ProcessState,
+    compact: Result<Vec<u8>, String>,
+    pretty: Result<Vec<u8>, String>,
+}
+
+/// `json proc b<hex text>`: a synthetic dump carrying a MozSoftErrors stream with that text goes
+/// through `process_minidump`; the resulting state is then treated like every other one
+fn build_proc(items: &[Sx]) -> Option<ProcessState> {
+    use minidump_synth::{Memory, SynthMinidump, SystemInfo as SynthSystemInfo, Thread};
+    use test_assembler::{Endian, Section};
+    if items.len() != 2 {
+        return None;
+    }
+    let text = String::from_utf8(items[1].bytes()?).ok()?;
+    let context = minidump_synth::x86_context(Endian::Little, 0xabcd1234, 0x1010);
+    let stack = Memory::with_section(Section::with_endian(Endian::Little).append_repeated(0, 0x1000), 0x1000);
+    let thread = Thread::new(Endian::Little, 0x1234, &stack, &context);
+    let dump = SynthMinidump::with_endian(Endian::Little)
+        .add_thread(thread)
+        .add_system_info(SynthSystemInfo::new(Endian::Little))
+        .add(context)
+        .add_memory(stack)
+        .set_soft_errors(&text);
+    let dump = Minidump::read(dump.finish()?).ok()?;
+    let rt = tokio::runtime::Builder::new_current_thread().enable_all().build().ok()?;
+    rt.block_on(async {
+        let provider = minidump_unwind::Symbolizer::new(minidump_unwind::simple_symbol_supplier(vec![]));
+        minidump_processor::process_minidump(&dump, &provider).await.ok()
+    })
+}
+
+fn is_proc_case(items: &[Sx]) -> bool {
+    matches!(items.first(), Some(A(a)) if a == "proc")
+}
+
+fn run(case: &str) -> Option<Run> {
+    let rest = case.strip_prefix("json ")?;
+    let items = sx_parse(rest)?;
+    let ps = if is_proc_case(&items) {
+        catch(|| build_proc(&items)).ok()??
+    } else {
+        catch(|| build(&items)).ok()??
+    };
+    let compact = catch(|| {
+        let mut v = Vec::new();
+        ps.print_json(&mut v, false).map(|_| v).map_err(|e| e.to_string())
+    })
+    .and_then(|r| r);
+    let pretty = catch(|| {
+        let mut v = Vec::new();
+        ps.print_json(&mut v, true).map(|_| v).map_err(|e| e.to_string())
+    })
+    .and_then(|r| r);
+    Some(Run { ps, compact, pretty })
+}
+
+/// the well-formedness the theorems assume (`WF` in MdProofs/C15.lean), on the real state
+fn wf(ps: &ProcessState) -> bool {
+    ps.requesting_thread.map_or(true, |i| i < ps.threads.len())
+        && ps.modules.iter().all(|m| m.raw.base_of_image.checked_add(m.raw.size_of_image as u64).is_some())
+        && ps.unloaded_modules.iter().all(|m| m.raw.base_of_image.checked_add(m.raw.size_of_image as u64).is_some())
+        && ps.threads.iter().all(|t| {
+            t.frames.iter().all(|f| {
+                f.module.as_ref().map_or(true, |m| m.raw.base_of_image <= f.instruction)
+                    && f.function_base.map_or(true, |fb| fb <= f.instruction)
+            })
+        })
+}
+
+fn expected_out(r: &Run, orc_json: &Option<Value>) -> String {
+    match &r.compact {
+        Err(_) => "M:PANIC".to_string(),
+        Ok(c) => {
+            let mut out = format!("M:{}", hex(c));
+            if let (true, Some(j)) = (conforms_predictable(&r.ps), orc_json) {
+                out.push_str(&format!(" C:{} U:proc_limits P:1", expected_conforms(j)));
+            }
+            out
+        }
+    }
+}
+
+fn has_hostile(s: &str) -> bool {
+    s.chars().any(|c| (c as u32) < 0x20 || c == '"' || c == '\\' || (c as u32) > 0xffff || c == '\u{fffd}')
+}
+
+fn tags_of(r: &Run) -> Vec<String> {
+    let ps = &r.ps;
+    let mut t = vec![
+        format!("cpu:{}", cpu_tag(&ps.system_info.cpu)),
+        format!("threads:{}", match ps.threads.len() { 0 => "0", 1 => "1", 2..=4 => "2-4", _ => "5+" }),
+        format!("req:{}", match ps.requesting_thread {
+            None => "none",
+            Some(i) if i >= ps.threads.len() => "out-of-range",
+            Some(i) if ps.threads[i].frames.is_empty() => "no-frames",
+            _ => "with-frames",
+        }),
+        format!("outcome:{}", if r.compact.is_ok() { "ok" } else { "panic" }),
+    ];
+    if ps.threads.iter().any(|t| t.frames.is_empty()) {
+        t.push("thread-without-frames".into());
+    }
+    if matches!(ps.system_info.os, Os::Unknown(_)) {
+        t.push("os-unknown".into());
+    }
+    if !ps.unloaded_modules.iter().next().is_none() {
+        t.push("unloaded-modules".into());
+    }
+    let names = ps
+        .threads
+        .iter()
+        .flat_map(|t| t.thread_name.iter().chain(t.frames.iter().flat_map(|f| f.function_name.iter())))
+        .chain(ps.modules.iter().map(|m| &m.name));
+    if names.into_iter().any(|s| has_hostile(s)) {
+        t.push("hostile-names".into());
+    }
+    if ps.exception_info.as_ref().map_or(false, |e| !e.possible_bit_flips.is_empty()) {
+        t.push("bit-flips".into());
+    }
+    if !wf(ps) {
+        t.push("not-wf".into());
+    }
+    if let (Some(i), true) = (ps.requesting_thread, r.compact.is_ok()) {
+        if ps.threads.get(i).map_or(false, |t| t.thread_id as usize != i) {
+            // json-schema.md describes crash_info.crashing_thread as the thread *id*; it is the index
+            t.push("crashing_thread-index-differs-from-thread-id".into());
+        }
+    }
+    t
+}
+
+// ------------------------------------------------------------------------------- generator
+
+const HOSTILE: [&str; 16] = [
+    "\"", "\\", "\u{8}", "\u{c}", "\n", "\r", "\t", "\u{0}", "\u{1f}", "\u{7f}", "\u{fffd}", "\u{1f600}",
+    "\u{10ffff}", "\u{2028}", "/", "é",
+];
+
+fn pk<'a>(rng: &mut Rng, xs: &[&'a str]) -> &'a str {
+    xs[rng.below(xs.len() as u64) as usize]
+}
+
+fn gen_string(rng: &mut Rng, hostile: bool) -> String {
+    let mut s = String::new();
+    let len = match rng.below(8) {
+        0 => 0,
+        1..=5 => rng.range(1, 12),
+        6 => rng.range(12, 40),
+        _ => rng.range(1, 4),
+    };
+    for _ in 0..len {
+        if hostile && rng.chance(1, 3) {
+            match rng.below(4) {
+                0 => s.push_str(pk(rng, &HOSTILE)),
+                1 => s.push(char::from_u32(rng.below(0x20) as u32).unwrap()),
+                2 => {
+                    // any scalar value (surrogates excluded by construction)
+                    let v = rng.below(0x110000 - 0x800) as u32;
+                    s.push(char::from_u32(if v >= 0xd800 { v + 0x800 } else { v }).unwrap());
+                }
+                _ => s.push(*rng.pick(&['\u{d7ff}', '\u{e000}', '\u{ffff}', '\u{10000}', '\u{80}', '\u{7ff}', '\u{800}'])),
+            }
+        } else {
+            s.push(*rng.pick(&[
+                'a', 'b', 'c', 'x', 'y', 'z', 'A', 'Z', '0', '9', '_', '.', ':', ' ', '<', '>', '(', ')', '~', '-',
+                '/', '\\',
+            ]));
+        }
+    }
+    s
+}
+
+fn gen_addr(rng: &mut Rng, bits64: bool) -> u64 {
+    match rng.below(10) {
+        0 => 0,
+        1 => u32::MAX as u64,
+        2 => {
+            if bits64 {
+                u64::MAX
+            } else {
+                u32::MAX as u64 - rng.below(16)
+            }
+        }
+        3 => rng.below(0x1000),
+        4 if bits64 => 1u64 << rng.range(32, 63),
+        _ => {
+            if bits64 {
+                rng.next() >> rng.below(40)
+            } else {
+                rng.below(1 << 32)
+            }
+        }
+    }
+}
+
+fn gen_reason(rng: &mut Rng) -> Sx {
+    L(vec![tag("r"), n(rng.below(9)), n(rng.next() >> rng.below(64)), n(rng.next() >> rng.below(64))])
+}
+
+const OSES: [&str; 8] = ["windows", "macos", "ios", "linux", "solaris", "android", "ps3", "nacl"];
+const CPUS: [&str; 10] = ["x86", "amd64", "ppc", "ppc64", "sparc", "arm", "arm64", "mips", "mips64", "unknown"];
+const TRUSTS: [&str; 7] = ["none", "scan", "cfi_scan", "frame_pointer", "cfi", "prewalked", "context"];
+const INCONS: [&str; 5] = ["intdiv", "priv", "noncanon", "accessallowed", "notfound"];
+
+struct GenOpts {
+    hostile: bool,
+    /// allow the deliberate departures from well-formedness (panicking states, empty offset sets)
+    wild: bool,
+    /// allow the states that leave the documented schema (os unknown, handle ≥ 2^32, soft_errors shape)
+    defects: bool,
+}
+
+fn gen_json_value(rng: &mut Rng, depth: u32, hostile: bool) -> Value {
+    match rng.below(if depth == 0 { 5 } else { 7 }) {
+        0 => Value::Null,
+        1 => Value::Bool(rng.chance(1, 2)),
+        2 => match rng.below(4) {
+            0 => Value::from(rng.next() >> rng.below(64)),
+            1 => Value::from(-((rng.next() >> rng.range(1, 63)) as i64)),
+            2 => Value::from(f64::from_bits(rng.next())),
+            _ => Value::from((rng.below(2000) as f64 - 1000.0) / 8.0),
+        },
+        3 | 4 => Value::String(gen_string(rng, hostile)),
+        5 => Value::Array((0..rng.below(4)).map(|_| gen_json_value(rng, depth - 1, hostile)).collect()),
+        _ => Value::Object((0..rng.below(4)).map(|_| (gen_string(rng, hostile), gen_json_value(rng, depth - 1, hostile))).collect()),
+    }
+}
+
+fn gen_state(rng: &mut Rng, g: &GenOpts) -> Vec<Sx> {
+    let cpu = *rng.pick(&CPUS);
+    let bits64 = !matches!(cpu, "x86" | "ppc" | "sparc" | "arm" | "mips");
+    let gs = |rng: &mut Rng| gen_string(rng, g.hostile);
+    let ogs = |rng: &mut Rng| if rng.chance(1, 3) { none() } else { s(&gen_string(rng, g.hostile)) };
+    // modules
+    let nmods = rng.below(5);
+    let mut mods: Vec<(u64, u64, String)> = Vec::new();
+    let mut mod_sx = Vec::new();
+    for _ in 0..nmods {
+        let base = gen_addr(rng, bits64);
+        let size = match rng.below(4) {
+            0 => 1,
+            1 => u32::MAX as u64,
+            _ => rng.range(1, 0x100000),
+        };
+        let (base, size) = if base.checked_add(size).is_none() && !(g.wild && rng.chance(1, 4)) {
+            (base - size, size)
+        } else {
+            (base, size)
+        };
+        let name = match rng.below(4) {
+            0 => format!("C:\\dir\\{}", gs(rng)),
+            1 => format!("/usr/lib/{}", gs(rng)),
+            _ => gs(rng),
+        };
+        let cv = *rng.pick(&["none", "pdb70", "elf"]);
+        let mut dbg: Vec<u8> = gs(rng).into_bytes();
+        if rng.chance(1, 4) {
+            dbg.extend_from_slice(&[0xff, 0xc3, 0x28]); // invalid UTF-8: decoded lossily
+        }
+        dbg.retain(|c| *c != 0);
+        let guid: Vec<u8> = if cv == "elf" {
+            (0..rng.range(0, 24)).map(|_| rng.below(256) as u8).collect()
+        } else {
+            (0..16).map(|_| if rng.chance(1, 8) { 0 } else { rng.below(256) as u8 }).collect()
+        };
+        mod_sx.push(L(vec![
+            n(base), n(size), s(&name), tag(cv), bts(&dbg), bts(&guid), n(rng.below(1 << 32)), n(rng.below(1 << 32)),
+            b(rng.chance(1, 2)), n(rng.below(1 << 32)), n(rng.below(1 << 32)), n(rng.below(1 << 32)), n(rng.below(1 << 32)),
+        ]));
+        mods.push((base, size, name));
+    }
+    // threads
+    let nthreads = match rng.below(6) {
+        0 => 0,
+        1 => 1,
+        _ => rng.range(1, 5),
+    };
+    let mut threads = Vec::new();
+    let mut frame_counts = Vec::new();
+    for _ in 0..nthreads {
+        let nframes = match rng.below(5) {
+            0 => 0,
+            1 => 1,
+            _ => rng.range(1, 6),
+        };
+        frame_counts.push(nframes);
+        let mut frames = Vec::new();
+        for _ in 0..nframes {
+            let module = if !mods.is_empty() && rng.chance(2, 3) { Some(rng.pick(&mods).clone()) } else { None };
+            let instr = match &module {
+                Some((base, size, _)) => {
+                    if g.wild && rng.chance(1, 12) && *base > 0 {
+                        base - 1 - rng.below(*base.min(&16))
+                    } else {
+                        base.saturating_add(rng.below(*size))
+                    }
+                }
+                None => gen_addr(rng, bits64),
+            };
+            let has_fn = rng.chance(2, 3);
+            let fbase = if has_fn {
+                if g.wild && rng.chance(1, 12) && instr < u64::MAX {
+                    on(Some(instr + 1))
+                } else {
+                    on(Some(instr - rng.below(instr.min(0x1000) + 1)))
+                }
+            } else {
+                none()
+            };
+            let unl: Vec<Sx> = if module.is_none() && rng.chance(1, 3) {
+                (0..rng.range(1, 3))
+                    .map(|_| {
+                        let k = if g.wild && rng.chance(1, 10) { 0 } else { rng.range(1, 3) };
+                        L(vec![s(&gs(rng)), L((0..k).map(|_| n(gen_addr(rng, bits64))).collect())])
+                    })
+                    .collect()
+            } else {
+                vec![]
+            };
+            let inl: Vec<Sx> = if has_fn && rng.chance(1, 3) {
+                (0..rng.range(1, 3)).map(|_| L(vec![s(&gs(rng)), ogs(rng), if rng.chance(1, 2) { none() } else { n(rng.below(1 << 32)) }])).collect()
+            } else {
+                vec![]
+            };
+            let kind = *rng.pick(&CTX_KINDS);
+            let valid = if rng.chance(1, 2) {
+                none()
+            } else {
+                let pool = ["eip", "esp", "ebp", "rip", "rsp", "rax", "r15", "pc", "sp", "lr", "fp", "x0", "x29", "r0", "r11", "ra", "s0", "gp", "srr0", "r1", "bogus", "EIP"];
+                L((0..rng.below(6)).map(|_| s(pk(rng, &pool))).collect())
+            };
+            frames.push(L(vec![
+                n(instr),
+                o(module, |(base, _, name)| L(vec![s(&name), n(base)])),
+                L(unl),
+                if has_fn { s(&gs(rng)) } else { none() },
+                fbase,
+                if has_fn && rng.chance(2, 3) { s(&gs(rng)) } else { none() },
+                if has_fn && rng.chance(2, 3) { n(rng.below(1 << 32)) } else { none() },
+                L(inl),
+                tag(pk(rng, &TRUSTS)),
+                L(vec![tag(kind), n(rng.next()), valid]),
+            ]));
+        }
+        threads.push(L(vec![
+            L(frames),
+            n(if rng.chance(1, 8) { u32::MAX as u64 } else { rng.below(100000) }),
+            ogs(rng),
+            if rng.chance(1, 3) { gen_reason(rng) } else { none() },
+        ]));
+    }
+    let req = match rng.below(6) {
+        0 => none(),
+        1 if g.wild => n(nthreads + rng.below(3)),
+        _ if nthreads > 0 => n(rng.below(nthreads)),
+        _ => none(),
+    };
+    let exc = if rng.chance(2, 3) {
+        let flips: Vec<Sx> = (0..if rng.chance(1, 2) { 0 } else { rng.range(1, 3) })
+            .map(|_| {
+                let conf = match rng.below(5) {
+                    0 => none(),
+                    1 => n(rng.pick(&[0.25f32, 0.5, 0.9, 0.925, 0.9625, 0.0, 1.0, -0.0, 1e-7, 3.4e38, f32::NAN, f32::INFINITY]).to_bits() as u64),
+                    _ => n(rng.below(1 << 32)),
+                };
+                L(vec![
+                    n(gen_addr(rng, bits64)),
+                    if rng.chance(1, 2) { none() } else { s(pk(rng, &["rax", "eip", "x0", "pc"])) },
+                    b(rng.chance(1, 2)), b(rng.chance(1, 2)), b(rng.chance(1, 2)), n(rng.below(6)), b(rng.chance(1, 2)),
+                    conf,
+                ])
+            })
+            .collect();
+        let adjusted = match rng.below(3) {
+            0 => none(),
+            1 => L(vec![tag("noncanonical"), n(gen_addr(rng, bits64))]),
+            _ => L(vec![tag("nulloffset"), n(gen_addr(rng, bits64))]),
+        };
+        L(vec![
+            gen_reason(rng),
+            n(gen_addr(rng, bits64)),
+            adjusted,
+            ogs(rng),
+            none(),
+            L(flips),
+            L((0..rng.below(3)).map(|_| tag(pk(rng, &INCONS))).collect()),
+        ])
+    } else {
+        none()
+    };
+    let os = if g.defects && rng.chance(1, 6) {
+        L(vec![tag("unknown"), n(*rng.pick(&[0u64, 42, 0xffffff, 0x1000000, u32::MAX as u64]))])
+    } else {
+        tag(pk(rng, &OSES))
+    };
+    let sys = L(vec![
+        os, ogs(rng), ogs(rng), tag(cpu), ogs(rng),
+        n(rng.below(256)),
+        if rng.chance(1, 2) { none() } else { n(rng.next() >> rng.below(64)) },
+    ]);
+    let lsb = if rng.chance(1, 3) { L(vec![s(&gs(rng)), s(&gs(rng)), s(&gs(rng)), s(&gs(rng))]) } else { none() };
+    let lim = |rng: &mut Rng| match rng.below(3) {
+        0 => tag("unlimited"),
+        1 => tag("err"),
+        _ => n(rng.next() >> rng.below(64)),
+    };
+    let limits = if rng.chance(1, 3) {
+        L((0..rng.below(6)).map(|_| L(vec![s(&gs(rng)), lim(rng), lim(rng), s(&gs(rng))])).collect())
+    } else {
+        none()
+    };
+    let mac = if rng.chance(1, 4) {
+        L((0..rng.below(4))
+            .map(|_| {
+                let z = |rng: &mut Rng| if rng.chance(1, 3) { n(0) } else { n(gen_addr(rng, bits64)) };
+                L(vec![n(*rng.pick(&[1, 4, 5])), z(rng), z(rng), z(rng), s(&gs(rng)), s(&gs(rng)), s(&gs(rng)), s(&gs(rng)), s(&gs(rng))])
+            })
+            .collect())
+    } else {
+        none()
+    };
+    let boot = match rng.below(4) {
+        0 => L(vec![none()]),
+        1 => L(vec![s(&gs(rng))]),
+        _ => none(),
+    };
+    let unloaded: Vec<Sx> = (0..if rng.chance(1, 2) { 0 } else { rng.below(4) })
+        .map(|_| {
+            let base = gen_addr(rng, bits64);
+            let size = rng.range(1, 0x100000);
+            let base = if base.checked_add(size).is_none() && !(g.wild && rng.chance(1, 4)) { base - size } else { base };
+            L(vec![n(base), n(size), s(&gs(rng)), n(rng.below(1 << 32))])
+        })
+        .collect();
+    let handles = if rng.chance(1, 3) {
+        L((0..rng.below(4))
+            .map(|_| {
+                let h = if g.defects && rng.chance(1, 4) { *rng.pick(&[1u64 << 32, u64::MAX, (1 << 53) + 1]) } else { rng.below(1 << 32) };
+                L(vec![n(rng.range(1, 2)), n(h), ogs(rng), ogs(rng)])
+            })
+            .collect())
+    } else {
+        none()
+    };
+    // symbol stats / cert info keyed by module basenames (and some strangers)
+    let mut keys: Vec<String> = mods.iter().map(|m| minidump_common::utils::basename(&m.2).to_string()).collect();
+    keys.push(gs(rng));
+    keys.sort();
+    keys.dedup();
+    let mut stats = Vec::new();
+    let mut cert = Vec::new();
+    for k in &keys {
+        if rng.chance(1, 2) {
+            let extra = if rng.chance(1, 3) {
+                let guid: Vec<u8> = (0..16).map(|_| rng.below(256) as u8).collect();
+                L(vec![s(&format!("{}{}", pk(rng, &["", "a/", "c:\\x\\"]), gs(rng))), bts(&guid), n(rng.below(1 << 32))])
+            } else {
+                none()
+            };
+            stats.push(L(vec![s(k), ogs(rng), b(rng.chance(1, 2)), b(rng.chance(1, 2)), extra]));
+        }
+        if rng.chance(1, 4) {
+            cert.push(L(vec![s(k), s(&gs(rng))]));
+        }
+    }
+    for u in &unloaded {
+        if rng.chance(1, 4) {
+            if let Some(name) = u.as_list().and_then(|l| l[2].string()) {
+                if !cert.iter().any(|c| c.as_list().and_then(|l| l[0].string()).as_deref() == Some(&name)) {
+                    cert.push(L(vec![s(&name), s(&gs(rng))]));
+                }
+            }
+        }
+    }
+    let soft = if rng.chance(1, 4) {
+        let v = if g.defects && rng.chance(1, 2) {
+            gen_json_value(rng, 2, g.hostile)
+        } else {
+            Value::Array((0..rng.below(3)).map(|_| {
+                Value::Object((0..rng.below(3)).map(|_| (gen_string(rng, g.hostile), gen_json_value(rng, 2, g.hostile))).collect())
+            }).collect())
+        };
+        A(format!("j{}", hex(v.to_string().as_bytes())))
+    } else {
+        none()
+    };
+    vec![
+        if rng.chance(1, 4) { none() } else { n(rng.below(1 << 32)) },
+        L(cert),
+        exc,
+        ogs(rng),
+        req,
+        L(threads),
+        sys,
+        lsb,
+        limits,
+        mac,
+        boot,
+        L(mod_sx),
+        L(unloaded),
+        handles,
+        L(stats),
+        if rng.chance(1, 3) { n(rng.below(70000)) } else { none() },
+        soft,
+    ]
+}
+
+// ---------------------------------------------------------------------------------- engine
+
+/// every character class the escaper distinguishes, in one string
+fn all_escape_classes() -> String {
+    let mut s = String::new();
+    for c in 0u32..=0xff {
+        s.push(char::from_u32(c).unwrap());
+    }
+    for c in [0x7ffu32, 0x800, 0xd7ff, 0xe000, 0xfffd, 0xffff, 0x10000, 0x1f600, 0x10ffff, 0x2028, 0x2029] {
+        s.push(char::from_u32(c).unwrap());
+    }
+    s
+}
+
+fn directed(emit: &mut dyn FnMut(String)) {
+    let mut rng = Rng::new(7);
+    let g = GenOpts { hostile: false, wild: false, defects: false };
+    // every CPU (pointer width incl. unknown) x every context kind as frame 0 of the crashing thread,
+    // with all-valid and partially valid registers; a second thread without frames
+    for cpu in CPUS {
+        for kind in CTX_KINDS {
+            for valid in [none(), L(vec![s("eip"), s("rip"), s("pc"), s("sp"), s("r0"), s("x0"), s("bogus")])] {
+                let mut st = gen_state(&mut rng, &g);
+                if let L(sys) = &mut st[6] {
+                    sys[3] = tag(cpu);
+                }
+                let frame = |instr: u64| {
+                    L(vec![n(instr), none(), L(vec![]), s(&all_escape_classes()), n(instr), none(), none(), L(vec![]),
+                           tag("context"), L(vec![tag(kind), n(instr), valid.clone()])])
+                };
+                st[5] = L(vec![
+                    L(vec![L(vec![frame(0x1000), frame(u32::MAX as u64)]), n(77), s("main \"thread\"\n"), none()]),
+                    L(vec![L(vec![]), n(78), none(), none()]),
+                ]);
+                st[4] = n(0);
+                emit(format!("json {}", sx_line(&st)));
+            }
+        }
+    }
+    // crashing thread without frames / no crashing thread / empty state
+    for req in [none(), n(1), n(0)] {
+        let mut st = gen_state(&mut rng, &g);
+        st[5] = L(vec![
+            L(vec![L(vec![]), n(1), none(), none()]),
+            L(vec![L(vec![]), n(2), s(&all_escape_classes()), none()]),
+        ]);
+        st[4] = req;
+        emit(format!("json {}", sx_line(&st)));
+    }
+}
 
 impl Engine for Json {
     fn name(&self) -> &'static str {
         "json"
     }
     fn rule(&self) -> String {
-        "not implemented".into()
+        "ProcessState values constructed directly from a generated recipe (hostile names: quotes, controls, \
+         non-BMP, U+FFFD from lossy decoding; every CPU/pointer width incl. unknown x every context kind; threads \
+         without frames; crashing thread without frames or out of range; unloaded modules; bit flips; arbitrary \
+         soft_errors JSON; deliberate non-well-formed states that must panic in model and code alike). Compared: \
+         print_json(pretty=false) bytes = Lean printJson(alpha(state)) bytes; Lean parser+Conforms verdict on the \
+         real bytes; pretty output parses (in Lean and serde_json) to the same value. Oracle on the \
+         implementation alone: UTF-8, serde_json parse, counts, frame numbers, crashing-thread copy, offsets, \
+         modules mirror, hex widths, documented <u32>s. Non-trivial: the state has at least one thread with a \
+         frame or a module, and print_json returned."
+            .into()
     }
-    fn generate(&self, _tier: Tier, _rng: &mut Rng, _emit: &mut dyn FnMut(String)) {}
-    fn exec(&self, _case: &str) -> ImplResult {
-        ImplResult::default()
+    fn exhaustive_part(&self) -> Option<String> {
+        Some("10 CPUs x 9 context kinds x {all, some} register validity as frame 0 of the crashing thread; every \
+              code point 0..=0xff and the UTF-8 length/surrogate boundaries in one name"
+            .into())
     }
+    fn generate(&self, tier: Tier, rng: &mut Rng, emit: &mut dyn FnMut(String)) {
+        directed(emit);
+        // processor path: what `process_minidump` makes of a MozSoftErrors stream
+        let texts: Vec<String> = vec![
+            "42".into(), "null".into(), "\"x\"".into(), "{}".into(), "{\"a\":1}".into(), "[]".into(), "[{}]".into(),
+            "[{\"InitErrors\":[\"StopProcessFailed\"]},{\"x\":[1,2.5,null,\"\\u0000\\\"\"]}]".into(),
+            "[1]".into(), "[{},null]".into(), "[{},[]]".into(), "[\"a\"]".into(), "[[{}]]".into(), "true".into(),
+            "not json".into(), "".into(), "[{}".into(), "-0.0".into(), "1e400".into(), " [ { } ] ".into(),
+        ];
+        for t in &texts {
+            emit(format!("json proc {}", sx_line(&[bts(t.as_bytes())])));
+        }
+        for _ in 0..(if tier == Tier::Quick { 40 } else { 400 }) {
+            let v = if rng.chance(1, 2) {
+                gen_json_value(rng, 2, true)
+            } else {
+                Value::Array((0..rng.below(4)).map(|_| {
+                    if rng.chance(4, 5) {
+                        Value::Object((0..rng.below(3)).map(|_| (gen_string(rng, true), gen_json_value(rng, 2, true))).collect())
+                    } else {
+                        gen_json_value(rng, 1, true)
+                    }
+                }).collect())
+            };
+            emit(format!("json proc {}", sx_line(&[bts(v.to_string().as_bytes())])));
+        }
+        let count = if tier == Tier::Quick { 4000 } else { 60000 };
+        for i in 0..count {
+            let g = GenOpts { hostile: i % 4 != 0, wild: i % 5 == 0, defects: i % 7 == 0 };
+            match catch(|| gen_state(&mut *rng, &g)) {
+                Ok(st) => emit(format!("json {}", sx_line(&st))),
+                Err(e) => eprintln!("generator panic at case {i}: {e}"),
+            }
+        }
+    }
+    fn exec(&self, case: &str) -> ImplResult {
+        match catch(|| self.exec_inner(case)) {
+            Ok(r) => r,
+            Err(e) => ImplResult {
+                out: "harness-panic".into(),
+                oracle: vec![("harness-panic".into(), e)],
+                ..Default::default()
+            },
+        }
+    }
+    fn model_request(&self, case: &str) -> Option<String> {
+        catch(|| self.model_request_inner(case)).ok().flatten()
+    }
+    fn shrink(&self, case: &str, still_fails: &dyn Fn(&str) -> bool) -> String {
+        match catch(|| self.shrink_inner(case, still_fails)) {
+            Ok(s) => s,
+            Err(e) => {
+                eprintln!("shrinker panic: {e}");
+                case.to_string()
+            }
+        }
+    }
+}
+
+impl Json {
+    fn exec_inner(&self, case: &str) -> ImplResult {
+        let Some(r) = run(case) else {
+            return ImplResult { out: "bad-case".into(), tags: vec!["bad-case".into()], ..Default::default() };
+        };
+        let mut res = ImplResult::default();
+        let mut orc_json = None;
+        match (&r.compact, &r.pretty) {
+            (Ok(c), Ok(p)) => {
+                let (fails, j) = oracle(&r.ps, c, p);
+                res.oracle = fails;
+                orc_json = j;
+            }
+            (c, p) => {
+                // a panic is what the model predicts outside WF; inside WF it violates the property
+                if wf(&r.ps) {
+                    let msg = c.as_ref().err().or(p.as_ref().err()).cloned().unwrap_or_default();
+                    res.oracle.push(("panic-on-well-formed-state".into(), msg));
+                }
+                if c.is_ok() != p.is_ok() {
+                    res.oracle.push(("pretty-compact-outcome-differs".into(), String::new()));
+                }
+            }
+        }
+        let soft_ok = r.ps.soft_errors.as_ref().map_or(true, |v| {
+            v.as_array().map_or(false, |a| a.iter().all(|x| x.is_object()))
+        });
+        let from_processor = case.starts_with("json proc ");
+        if from_processor && !soft_ok {
+            let t: String = r.ps.soft_errors.as_ref().map(|v| v.to_string()).unwrap_or_default().chars().take(80).collect();
+            res.oracle.push((
+                "soft-errors-processor-passthrough".into(),
+                format!("process_minidump produced soft_errors = {t}; json-schema.md documents [ <object> ]"),
+            ));
+        }
+        res.out = expected_out(&r, &orc_json);
+        res.nontrivial = r.compact.is_ok()
+            && (r.ps.threads.iter().any(|t| !t.frames.is_empty()) || r.ps.modules.iter().next().is_some());
+        res.tags = tags_of(&r);
+        if from_processor {
+            res.tags.push(format!("processor-path:soft_errors-{}", if r.ps.soft_errors.is_some() { "kept" } else { "dropped" }));
+        } else if !soft_ok {
+            res.tags.push("direct-state-soft_errors-not-a-list-of-objects".into());
+        }
+        res
+    }
+    fn model_request_inner(&self, case: &str) -> Option<String> {
+        let r = run(case)?;
+        let line = catch(|| sx_line(&alpha(&r.ps))).ok()?;
+        let mut req = format!("json {line}");
+        if let (Ok(c), Ok(p), true) = (&r.compact, &r.pretty, conforms_predictable(&r.ps)) {
+            if std::str::from_utf8(c).ok().and_then(|t| serde_json::from_str::<Value>(t).ok()).is_some() {
+                req.push_str(&format!(" ck {} {}", hex(c), hex(p)));
+            }
+        }
+        Some(req)
+    }
+    fn shrink_inner(&self, case: &str, still_fails: &dyn Fn(&str) -> bool) -> String {
+        let Some(mut items) = case.strip_prefix("json ").and_then(sx_parse) else {
+            return case.to_string();
+        };
+        if is_proc_case(&items) {
+            return case.to_string();
+        }
+        let render = |items: &Vec<Sx>| format!("json {}", sx_line(items));
+        // generic structural shrinking: drop list elements, blank strings, zero numbers, None-ify
+        let mut budget = 400;
+        loop {
+            let mut progress = false;
+            let paths = collect_paths(&items);
+            for path in paths {
+                if budget == 0 {
+                    return render(&items);
+                }
+                for cand in candidates(&items, &path) {
+                    budget -= 1;
+                    let line = render(&cand);
+                    if still_fails(&line) {
+                        items = cand;
+                        progress = true;
+                        break;
+                    }
+                    if budget == 0 {
+                        break;
+                    }
+                }
+                if progress {
+                    break;
+                }
+            }
+            if !progress {
+                return render(&items);
+            }
+        }
+    }
+}
+
+fn collect_paths(items: &[Sx]) -> Vec<Vec<usize>> {
+    fn go(x: &Sx, cur: &mut Vec<usize>, out: &mut Vec<Vec<usize>>) {
+        out.push(cur.clone());
+        if let L(v) = x {
+            for (i, c) in v.iter().enumerate() {
+                cur.push(i);
+                go(c, cur, out);
+                cur.pop();
+            }
+        }
+    }
+    let mut out = Vec::new();
+    for (i, x) in items.iter().enumerate() {
+        let mut cur = vec![i];
+        go(x, &mut cur, &mut out);
+    }
+    // large subtrees first
+    out.sort_by_key(|p| p.len());
+    out
+}
+
+fn get_mut<'a>(items: &'a mut [Sx], path: &[usize]) -> Option<&'a mut Sx> {
+    let mut cur = items.get_mut(path[0])?;
+    for &i in &path[1..] {
+        match cur {
+            L(v) => cur = v.get_mut(i)?,
+            _ => return None,
+        }
+    }
+    Some(cur)
+}
+
+fn candidates(items: &[Sx], path: &[usize]) -> Vec<Vec<Sx>> {
+    let mut out = Vec::new();
+    let mut base = items.to_vec();
+    let Some(node) = get_mut(&mut base, path).map(|n| n.clone()) else {
+        return out;
+    };
+    let mut with = |repl: Sx| {
+        let mut c = items.to_vec();
+        if let Some(n) = get_mut(&mut c, path) {
+            *n = repl;
+        }
+        out.push(c);
+    };
+    match &node {
+        L(v) if !v.is_empty() => {
+            with(L(vec![]));
+            with(none());
+            for i in 0..v.len() {
+                let mut w = v.clone();
+                w.remove(i);
+                with(L(w));
+            }
+        }
+        A(a) if a.starts_with('s') && a.len() > 1 => {
+            with(A("s".into()));
+            with(none());
+            if let Some(st) = node.string() {
+                let cs: Vec<char> = st.chars().collect();
+                if cs.len() > 1 {
+                    with(s(&cs[..cs.len() / 2].iter().collect::<String>()));
+                    with(s(&cs[cs.len() / 2..].iter().collect::<String>()));
+                }
+            }
+        }
+        A(a) if a.starts_with('n') && a != "n0" => {
+            with(n(0));
+            with(none());
+        }
+        A(a) if a.starts_with('j') => with(none()),
+        _ => {}
+    }
+    out
 }
